@@ -804,3 +804,35 @@ func clKVHelpers(c *Ctx) {
 		}
 	}
 }
+
+// Terminator symmetry, both sides: every shard file ends with the terminator
+// (also an empty one: the files are opened without O_TRUNC, the terminator is
+// what cuts off the content of an earlier backup), and the reader never turns
+// a read error (EOF before the terminator) into success.
+func clTerminatorAlways(c *Ctx) {
+	p := c.P
+	wi := p.Func("nitro", "rawFileWriter", "WriteItem")
+	cl := p.Func("nitro", "rawFileWriter", "Close")
+	cfi := p.Info(cl)
+	skip := cfi.PathAvoiding(nil, func(x ssa.Instruction) bool {
+		r, ok := x.(*ssa.Return)
+		return ok && r.Block() != cl.Recover
+	}, func(x ssa.Instruction) bool { return p.IsCall(x, wi) })
+	c.Check(skip == nil, cl, skip, "every path through the shard writer's Close appends the terminator",
+		"a shard closed without terminator is indistinguishable from a truncated one; since shard files are not truncated on open, stale items of an earlier backup in the same directory follow the new content")
+	ri := p.Func("nitro", "rawFileReader", "ReadItem")
+	dec := p.Func("nitro", "Nitro", "DecodeItem")
+	rfi := p.Info(ri)
+	sites := p.CallSites(ri, dec)
+	if len(sites) != 1 {
+		undecidedf("rawFileReader.ReadItem: expected one DecodeItem call, found %d", len(sites))
+	}
+	ev, _ := errResult(sites[0])
+	for _, ret := range rfi.Returns() {
+		if len(ret.Results) != 2 {
+			undecidedf("rawFileReader.ReadItem: unexpected result arity")
+		}
+		c.Check(ev != nil && strip(rfi.RetVal(ret, 1)) == ev, ri, ret, "ReadItem returns the decoder's error unchanged",
+			"the reader replaces the decoder's error (e.g. EOF before the terminator) on some path: a shard cut off at an item boundary is accepted as complete")
+	}
+}
